@@ -95,6 +95,19 @@ pub fn spec(id: &str) -> Option<Spec> {
             total: Box::new(c15::total),
             generate: Box::new(c15::gen_case),
         }),
+        "C17" => Some(Spec {
+            id: "C17",
+            level: "exploration",
+            rule: "Documents whose line i starts with key k<i> (so a renderer that shows a wrong line is recognisable), 3..600 lines (beyond the 3 KiB ring and the 8 KiB BufReader), LF or CRLF, optional BOM, one failing leaf at a seeded line and column (deep inside long flow sequences, after multi-byte text), control / C1 / ANSI / OSC sequences literal in source lines and as YAML escapes in reflected keys, values, unknown fields, unknown variants and duplicate keys; targets map-of-sequences, map-of-ints, strict struct, map-of-enums, untyped. Groups of 10 cases share one document: from_str at the five radii {0,1,5,64,10000} and from_reader under 1-byte, whole, 100-byte and seeded schedules, a quarter of them with a read fault in the second half (the diagnostic read-ahead). Every returned error is rendered with Display, the default / user / custom formatters, snippets off, and (string input) the miette adapter. Oracle per text: no panic; no C0 except newline/tab, no DEL, no C1; at most 5 source lines per snippet; each at most 2r+1 columns plus ellipses; gutter number = number in the k<n> key shown; caret line under the header's line; the character under the caret is the (sanitised) character at the reported column of the reported line of the input; without snippet the text names the reported line and column. One evaluation = one parse + all renderings. Non-trivial = every case that produced an error; distinct = distinct rendered-text digests.".into(),
+            assumptions: vec![
+                "display width follows unicode-width 0.2 with tab = 4 columns; the generator keeps to characters of unambiguous width".into(),
+                "lone-CR line breaks are not generated (C16's quantifier)".into(),
+                "validation errors and alias errors (two locations) are exempt from the marker-on-reported-line clause".into(),
+            ],
+            components: components(),
+            total: Box::new(c17::total),
+            generate: Box::new(c17::gen_case),
+        }),
         _ => None,
     }
 }
@@ -108,6 +121,7 @@ pub fn exec(case: &Case, st: &mut Stats) -> Vec<Viol> {
         Case::C11(c) => c11::exec(c, st),
         Case::C07(c) => c07::exec(c, st),
         Case::C15(c) => c15::exec(c, st),
+        Case::C17(c) => c17::exec(c, st),
     }
 }
 
@@ -120,5 +134,6 @@ pub fn shrink_candidates(case: &Case) -> Vec<Case> {
         Case::C11(c) => c11::shrink(c),
         Case::C07(c) => c07::shrink(c),
         Case::C15(c) => c15::shrink(c),
+        Case::C17(c) => c17::shrink(c),
     }
 }
